@@ -411,86 +411,51 @@ theorem b64_alphabet_facts :
     stdAlphabet.take 62 = urlAlphabet.take 62 ∧ stdAlphabet.drop 62 = [0x2B, 0x2F] ∧ urlAlphabet.drop 62 = [0x2D, 0x5F] := by
   decide +kernel
 
-/-! ## 4. Size limits -/
+/-! ## 4. Size limits
+
+  Code as of /repo 4e49c43 (CheckFields restructured in 591c527, receipt size check in 38b1ab6).
+  ONE gap remains between the code and the property's wording, recorded as a known finding: a room ID that
+  exceeds only the 255-byte limit makes the code REFUSE the event, where the property says "too large but
+  persistable" (`Exceeds.roomBytesOnly`).  Everything else is proved equal, for every registered version. -/
 
 open V.Limits in
-theorem limitsX_eq_spec : ∀ (json typeCP skCP typeB skB senderCP senderB roomCP roomB rValid : Bool),
-    let x : Exceeds := ⟨json, typeCP, skCP, typeB, skB, senderCP, senderB, roomCP, roomB⟩
-    (rValid || roomB) = true → x.masked = false →
-    some (verdictX true false .checkID true true true true rValid x).cls = (specX true x).map Outcome.cls := by
-  decide
-
-open V.Limits in
-theorem limitsX_masked : ∀ (json typeCP skCP typeB skB senderCP senderB roomCP roomB rValid : Bool),
-    let x : Exceeds := ⟨json, typeCP, skCP, typeB, skB, senderCP, senderB, roomCP, roomB⟩
-    (rValid || roomB) = true → x.masked = true →
-    verdictX true false .checkID true true true true rValid x = .tooLargePersistable ∧ specX true x = some .tooLarge := by
-  decide
-
-open V.Limits in
-/-- the parameters of an ordinary version: all limits as in the property, lenient, sender checked -/
+/-- the parameters of a registered version: all limits as in the property, lenient -/
 def stdParams (rc : RoomCheck) (exempt : Bool) : Params :=
   { maxID := 255, maxEvent := 65536, lenient := true, senderExempt := exempt, roomCheck := rc }
 
 open V.Limits in
-/-- LIMITS, main statement (room versions 1–11 and the unstable ones parsed like them, except
-    org.matrix.msc4014): for every event with a well-formed sender and room ID whose shape is not one of
-    the `masked` ones, the library's verdict is the one the property demands — refused if the JSON exceeds
-    65 536 bytes or a field exceeds 255 code points, too-large-but-persistable if only the 255-byte limit is
-    exceeded, accepted otherwise.  `_partial`: see `limits_masked_gap` for the excluded shapes. -/
-theorem limits_eq_spec_partial (s : Sizes) (hw : Spec.wellFormedIDs false false s = true)
-    (hm : (exceeds 255 65536 s).masked = false) :
-    some (verdict (stdParams .checkID false) s).cls = (Spec.verdict false false s).map Outcome.cls := by
-  rw [verdict_eq_verdictX, spec_eq_specX, hw]
-  simp only [Spec.wellFormedIDs, Bool.false_or, Bool.and_eq_true] at hw
-  obtain ⟨⟨⟨⟨hsc, hss⟩, hrs⟩, hrc⟩, hrv⟩ := hw
-  simp only [stdParams, hsc, hss, hrs, hrc]
-  exact limitsX_eq_spec _ _ _ _ _ _ _ _ _ _ hrv hm
+def isPrefixOnly : RoomCheck → Bool
+  | .prefixOnly => true
+  | .checkID => false
 
 open V.Limits in
-/-- the full-strength statement fails exactly on the `masked` shapes: there the code answers
-    "too large but persistable" while a hard limit is exceeded as well (the property demands refusal).
-    FINDING (code as it is): the room ID is checked at parse time, before CheckFields looks at the JSON
-    length and the other fields; type / state key byte lengths are checked before the sender. -/
-theorem limits_masked_gap (s : Sizes) (hw : Spec.wellFormedIDs false false s = true)
-    (hm : (exceeds 255 65536 s).masked = true) :
-    verdict (stdParams .checkID false) s = .tooLargePersistable ∧ Spec.verdict false false s = some .tooLarge := by
-  rw [verdict_eq_verdictX, spec_eq_specX, hw]
-  simp only [Spec.wellFormedIDs, Bool.false_or, Bool.and_eq_true] at hw
-  obtain ⟨⟨⟨⟨hsc, hss⟩, hrs⟩, hrc⟩, hrv⟩ := hw
-  simp only [stdParams, hsc, hss, hrs, hrc]
-  exact limitsX_masked _ _ _ _ _ _ _ _ _ _ hrv hm
-
-open V.Limits V.Ident in
-/-- a concrete masked event: room ID of 128 two-byte characters (256 bytes, 130 code points) and a JSON of
-    70 000 bytes: the code says "persistable", the property says "refused" -/
-example :
-    let room : BS := 0x21 :: (List.replicate 128 [0xC3, 0xA9]).flatten ++ [0x3A, 0x62]
-    let s := sizesOf 70000 [0x6D] none [0x40, 0x73, 0x3A, 0x62] room
-    verdict (stdParams .checkID false) s = .tooLargePersistable ∧ Spec.verdict false false s = some .tooLarge := by
-  decide +kernel
+/-- well-formedness of sender / room ID on the boolean abstraction (room sigil present) -/
+def wfX (rc : RoomCheck) (exempt sColon sSigil rColon rValid roomB : Bool) : Bool :=
+  (exempt || (sColon && sSigil)) && (isPrefixOnly rc || rColon) && (rValid || roomB)
 
 open V.Limits in
-/-- an event within every limit is accepted; one byte more of JSON and it is refused -/
-example :
-    let s (n : Nat) := sizesOf n [0x6D] none [0x40, 0x73, 0x3A, 0x62] [0x21, 0x72, 0x3A, 0x62]
-    verdict (stdParams .checkID false) (s 65536) = .ok ∧ verdict (stdParams .checkID false) (s 65537) = .tooLarge := by
-  decide +kernel
-
-open V.Limits in
-theorem limitsX_domainless : ∀ (json typeCP skCP typeB skB senderCP senderB roomCP roomB rValid rColon : Bool),
+theorem limitsX_eq_spec : ∀ (rc : RoomCheck) (exempt json typeCP skCP typeB skB senderCP senderB roomCP roomB rValid sColon sSigil rColon : Bool),
     let x : Exceeds := ⟨json, typeCP, skCP, typeB, skB, senderCP, senderB, roomCP, roomB⟩
-    (rValid || roomB) = true → (rValid = true → roomB = false ∧ roomCP = false) →
-    x.masked = false → (rValid = false → x.hard = true) →
-    some (verdictX true false .prefixOnly true true rColon true rValid x).cls = (specX true x).map Outcome.cls := by
-  decide
+    wfX rc exempt sColon sSigil rColon rValid roomB = true → (rValid = true → roomB = false ∧ roomCP = false) →
+    x.roomBytesOnly = false →
+    some (verdictX true exempt rc sColon sSigil rColon true rValid x).cls = (specX true x).map Outcome.cls := by
+  intro rc; cases rc <;> decide +kernel
 
 open V.Limits in
-theorem limitsX_pseudo : ∀ (json typeCP skCP typeB skB roomCP roomB rValid sColon sSigil : Bool),
-    let x : Exceeds := ⟨json, typeCP, skCP, typeB, skB, false, false, roomCP, roomB⟩
-    (rValid || roomB) = true → x.masked = false →
-    some (verdictX true true .checkID sColon sSigil true true rValid x).cls = (specX true x).map Outcome.cls := by
-  decide
+theorem limitsX_untrusted_eq_spec : ∀ (rc : RoomCheck) (exempt json typeCP skCP typeB skB senderCP senderB roomCP roomB rValid sColon sSigil rColon checked : Bool),
+    let x : Exceeds := ⟨json, typeCP, skCP, typeB, skB, senderCP, senderB, roomCP, roomB⟩
+    wfX rc exempt sColon sSigil rColon rValid roomB = true → (rValid = true → roomB = false ∧ roomCP = false) →
+    x.roomBytesOnly = false → (checked = true → json = true) →
+    some (verdictUntrustedX true exempt rc sColon sSigil rColon true rValid x checked).cls = (specX true x).map Outcome.cls := by
+  intro rc; cases rc <;> decide +kernel
+
+open V.Limits in
+theorem limitsX_gap : ∀ (rc : RoomCheck) (exempt json typeCP skCP typeB skB senderCP senderB roomCP roomB rValid sColon sSigil rColon : Bool),
+    let x : Exceeds := ⟨json, typeCP, skCP, typeB, skB, senderCP, senderB, roomCP, roomB⟩
+    wfX rc exempt sColon sSigil rColon rValid roomB = true → (rValid = true → roomB = false ∧ roomCP = false) →
+    x.roomBytesOnly = true →
+    ((verdictX true exempt rc sColon sSigil rColon true rValid x).cls, specX true x) = (Class.refused, some Outcome.tooLargePersistable) := by
+  intro rc; cases rc <;> decide +kernel
 
 open V.Limits V.Ident in
 /-- a room ID that spec.NewRoomID accepts is within both limits -/
@@ -509,43 +474,95 @@ theorem roomValid_within (n : Nat) (ty : BS) (sk : Option BS) (se ro : BS)
   · simp only [exceeds, sizesOf, idSize]; exact decide_eq_false (by omega)
 
 open V.Limits V.Ident in
-/-- versions parsed with newEventFromTrustedJSONV3 (room version 12, org.matrix.hydra.11): the same
-    statement for concrete events; besides the masked shapes the verdicts differ when the room ID is over
-    the 255-byte limit only (the code refuses it outright through spec.NewRoomID instead of answering
-    "persistable": excluded by `hroom`).  `_partial` for these two exclusions. -/
-theorem limits_domainless_partial (n : Nat) (ty : BS) (sk : Option BS) (se ro : BS)
-    (hw : Spec.wellFormedIDs true false (sizesOf n ty sk se ro) = true)
-    (hm : (exceeds 255 65536 (sizesOf n ty sk se ro)).masked = false)
-    (hroom : (sizesOf n ty sk se ro).roomValid = false → (exceeds 255 65536 (sizesOf n ty sk se ro)).hard = true) :
-    some (verdict (stdParams .prefixOnly false) (sizesOf n ty sk se ro)).cls =
-      (Spec.verdict true false (sizesOf n ty sk se ro)).map Outcome.cls := by
-  have hrv := roomValid_within n ty sk se ro
-  rw [verdict_eq_verdictX, spec_eq_specX, hw]
-  simp only [Spec.wellFormedIDs, Bool.false_or, Bool.true_or, Bool.and_true, Bool.and_eq_true] at hw
-  obtain ⟨⟨⟨hsc, hss⟩, hrs⟩, hrv'⟩ := hw
-  simp only [stdParams, hsc, hss, hrs]
-  generalize hx : exceeds 255 65536 (sizesOf n ty sk se ro) = x at hm hroom hrv ⊢
-  obtain ⟨json, typeCP, skCP, typeB, skB, senderCP, senderB, roomCP, roomB⟩ := x
-  have hxr : roomB = (exceeds 255 65536 (sizesOf n ty sk se ro)).roomB := by rw [hx]
-  exact limitsX_domainless _ _ _ _ _ _ _ _ _ _ _ (by rw [hxr]; exact hrv') hrv hm hroom
+/-- the spec's well-formedness, restated on the abstraction -/
+theorem wf_to_wfX (rc : RoomCheck) (exempt : Bool) (s : Sizes)
+    (hw : Spec.wellFormedIDs (isPrefixOnly rc) exempt s = true) :
+    s.room.sigilOk = true ∧
+    wfX rc exempt s.sender.hasColon s.sender.sigilOk s.room.hasColon s.roomValid (exceeds 255 65536 s).roomB = true := by
+  simp only [Spec.wellFormedIDs, Bool.and_eq_true, Bool.or_eq_true, Spec.maxFieldLen] at hw
+  obtain ⟨⟨⟨hs, hrs⟩, hrc⟩, hrv⟩ := hw
+  refine ⟨hrs, ?_⟩
+  simp only [wfX, exceeds, Bool.and_eq_true, Bool.or_eq_true]
+  exact ⟨⟨hs, hrc⟩, hrv⟩
 
 open V.Limits V.Ident in
-/-- org.matrix.msc4014 (CheckFields does not look at the sender): the same statement when the sender is
-    within both limits.  `_partial`: a sender over either limit is accepted by the code (FINDING). -/
-theorem limits_pseudo_partial (s : Sizes) (hw : Spec.wellFormedIDs false true s = true)
-    (hm : (exceeds 255 65536 s).masked = false)
-    (hs : (exceeds 255 65536 s).senderCP = false ∧ (exceeds 255 65536 s).senderB = false) :
-    some (verdict (stdParams .checkID true) s).cls = (Spec.verdict false true s).map Outcome.cls := by
+/-- LIMITS on the trusted path and on build (NewEventFromTrustedJSON + CheckFields, the tail of
+    EventBuilder.Build), for every kind of registered version (`rc` = which parse function, `exempt` =
+    org.matrix.msc4014): for every event with a well-formed sender / room ID the verdict is the one the
+    property demands — refused if the JSON exceeds 65 536 bytes or type, state key, sender or room ID
+    exceeds 255 code points; too large but persistable if only the 255-byte limit is exceeded; accepted
+    otherwise.  `_partial`: except when the ROOM ID is what exceeds the byte limit only (known finding,
+    see `limits_roomBytes_gap`). -/
+theorem limits_eq_spec_partial (rc : RoomCheck) (exempt : Bool) (n : Nat) (ty : BS) (sk : Option BS) (se ro : BS)
+    (hw : Spec.wellFormedIDs (isPrefixOnly rc) exempt (sizesOf n ty sk se ro) = true)
+    (hgap : (exceeds 255 65536 (sizesOf n ty sk se ro)).roomBytesOnly = false) :
+    some (verdict (stdParams rc exempt) (sizesOf n ty sk se ro)).cls =
+      (Spec.verdict (isPrefixOnly rc) exempt (sizesOf n ty sk se ro)).map Outcome.cls := by
+  have hrv := roomValid_within n ty sk se ro
+  obtain ⟨hsig, hwx⟩ := wf_to_wfX rc exempt _ hw
   rw [verdict_eq_verdictX, spec_eq_specX, hw]
-  simp only [Spec.wellFormedIDs, Bool.false_or, Bool.true_or, Bool.true_and, Bool.and_eq_true] at hw
-  obtain ⟨⟨hrs, hrc⟩, hrv⟩ := hw
-  simp only [stdParams, hrs, hrc]
-  generalize hx : exceeds 255 65536 s = x at hm hs ⊢
+  simp only [stdParams, hsig]
+  generalize hx : exceeds 255 65536 (sizesOf n ty sk se ro) = x at hgap hrv hwx ⊢
   obtain ⟨json, typeCP, skCP, typeB, skB, senderCP, senderB, roomCP, roomB⟩ := x
-  simp only at hs
-  obtain ⟨rfl, rfl⟩ := hs
-  have hxr : roomB = (exceeds 255 65536 s).roomB := by rw [hx]
-  exact limitsX_pseudo _ _ _ _ _ _ _ _ _ _ (by rw [hxr]; exact hrv) hm
+  exact limitsX_eq_spec rc exempt _ _ _ _ _ _ _ _ _ _ _ _ _ hwx hrv hgap
+
+open V.Limits V.Ident in
+/-- LIMITS on receipt (NewEventFromUntrustedJSON): the same, whether or not the content hash matches
+    (`checkedLen` = length of the JSON CheckFields sees: the event's own, or its redacted form's, never longer) -/
+theorem limits_untrusted_eq_spec_partial (rc : RoomCheck) (exempt : Bool) (n checkedLen : Nat) (ty : BS) (sk : Option BS) (se ro : BS)
+    (hle : checkedLen ≤ n)
+    (hw : Spec.wellFormedIDs (isPrefixOnly rc) exempt (sizesOf n ty sk se ro) = true)
+    (hgap : (exceeds 255 65536 (sizesOf n ty sk se ro)).roomBytesOnly = false) :
+    some (verdictUntrusted (stdParams rc exempt) (sizesOf n ty sk se ro) checkedLen).cls =
+      (Spec.verdict (isPrefixOnly rc) exempt (sizesOf n ty sk se ro)).map Outcome.cls := by
+  have hrv := roomValid_within n ty sk se ro
+  obtain ⟨hsig, hwx⟩ := wf_to_wfX rc exempt _ hw
+  have hck : decide (checkedLen > 65536) = true → (exceeds 255 65536 (sizesOf n ty sk se ro)).json = true := by
+    intro h; have h' := of_decide_eq_true h; simp only [exceeds, sizesOf]; exact decide_eq_true (by omega)
+  rw [verdictUntrusted_eq_X, spec_eq_specX, hw]
+  simp only [stdParams, hsig]
+  generalize hx : exceeds 255 65536 (sizesOf n ty sk se ro) = x at hgap hrv hwx hck ⊢
+  obtain ⟨json, typeCP, skCP, typeB, skB, senderCP, senderB, roomCP, roomB⟩ := x
+  exact limitsX_untrusted_eq_spec rc exempt _ _ _ _ _ _ _ _ _ _ _ _ _ _ hwx hrv hgap hck
+
+open V.Limits V.Ident in
+/-- the full-strength statement fails exactly on `roomBytesOnly`: there the code refuses, while the
+    property's wording ("persistable when only the 255-byte limit is exceeded") asks for persistable.
+    KNOWN FINDING (limits-room-bytes-only-refused). -/
+theorem limits_roomBytes_gap (rc : RoomCheck) (exempt : Bool) (n : Nat) (ty : BS) (sk : Option BS) (se ro : BS)
+    (hw : Spec.wellFormedIDs (isPrefixOnly rc) exempt (sizesOf n ty sk se ro) = true)
+    (hgap : (exceeds 255 65536 (sizesOf n ty sk se ro)).roomBytesOnly = true) :
+    (verdict (stdParams rc exempt) (sizesOf n ty sk se ro)).cls = .refused ∧
+      Spec.verdict (isPrefixOnly rc) exempt (sizesOf n ty sk se ro) = some .tooLargePersistable := by
+  have hrv := roomValid_within n ty sk se ro
+  obtain ⟨hsig, hwx⟩ := wf_to_wfX rc exempt _ hw
+  rw [verdict_eq_verdictX, spec_eq_specX, hw]
+  simp only [stdParams, hsig]
+  generalize hx : exceeds 255 65536 (sizesOf n ty sk se ro) = x at hgap hrv hwx ⊢
+  obtain ⟨json, typeCP, skCP, typeB, skB, senderCP, senderB, roomCP, roomB⟩ := x
+  have := limitsX_gap rc exempt _ _ _ _ _ _ _ _ _ _ _ _ _ hwx hrv hgap
+  exact ⟨congrArg Prod.fst this, congrArg Prod.snd this⟩
+
+open V.Limits V.Ident in
+/-- the finding's witness: room ID of 128 two-byte characters (256 bytes, 130 code points), everything else small -/
+example :
+    let room : BS := 0x21 :: (List.replicate 126 [0xC3, 0xA9]).flatten ++ [0x61, 0x3A, 0x62]
+    let s := sizesOf 2000 [0x6D] none [0x40, 0x73, 0x3A, 0x62] room
+    (exceeds 255 65536 s).roomBytesOnly = true ∧ Spec.wellFormedIDs false false s = true ∧
+    verdict (stdParams .checkID false) s = .tooLarge ∧ Spec.verdict false false s = some .tooLargePersistable := by
+  decide +kernel
+
+open V.Limits in
+/-- an event within every limit is accepted; one byte more of JSON and it is refused, also on receipt with
+    a content hash that does not match (redacted form of 200 bytes); a sender of 256 bytes / 130 code points
+    is too large but persistable, in org.matrix.msc4014 as well -/
+example :
+    let s (n : Nat) := sizesOf n [0x6D] none [0x40, 0x73, 0x3A, 0x62] [0x21, 0x72, 0x3A, 0x62]
+    let sender : Ident.BS := 0x40 :: (List.replicate 126 [0xC3, 0xA9]).flatten ++ [0x61, 0x3A, 0x62]
+    verdict (stdParams .checkID false) (s 65536) = .ok ∧ verdict (stdParams .checkID false) (s 65537) = .tooLarge ∧
+    verdictUntrusted (stdParams .checkID false) (s 65537) 200 = .tooLarge ∧
+    verdict (stdParams .checkID true) (sizesOf 2000 [0x6D] none sender [0x21, 0x72, 0x3A, 0x62]) = .tooLargePersistable := by
+  decide +kernel
 
 open V.Limits in
 /-- regenerated: the limits are the property's, and every registered version is lenient about the byte
